@@ -1002,7 +1002,7 @@ class HistogramBase(abc.ABC):
         if isinstance(other, HistogramBase):
             raise TypeError("Division of two histograms is not supported.")
         elif np.isscalar(other):
-            self._coerce_dtype(np.float64)
+            self._coerce_dtype(np.promote_types(np.float64, np.asarray(other).dtype))
             self.frequencies = self.frequencies / other
             self.errors2 = self.errors2 / other**2
             self._missed /= other
